@@ -145,7 +145,8 @@ impl<TCompilationProfile: CompilationProfile> IsographDatabase<TCompilationProfi
             .get_iso_literal_map_mut()
             .tracked()
             .0
-            .extract_if(|k, _| k.to_string().starts_with(relative_path))
+            // N.B. compare whole path components: "src/ab/x.ts" is not in the folder "src/a"
+            .extract_if(|k, _| std::path::Path::new(&k.to_string()).starts_with(relative_path))
             .map(|(_, v)| v)
             .collect::<Vec<_>>();
 
